@@ -11,7 +11,7 @@ let () = main_loop (fun c ->
     let ext = (match atom which with "gsub" -> gtab_gsubExt | "gpos" -> gtab_gposExt | _ -> failwith "bad type") in
     (match read_gtab gtab_maxScriptListWork gtab_lookupCap (sr_hook ext) data with
      | Ok g ->
-       L [A "ok";
+       L [A "ok"; an (distinct_calls (g_lookups g));
           L (List.map (fun f -> L (an (f_tag f) :: List.map an (f_lookups f))) (g_features g));
           L (List.map (fun l -> L [an (l_type l); an (l_flags l); an (l_mfs l); L (List.map sx_of_sub (l_subs l))]) (g_lookups g))]
      | Err -> A "err"
